@@ -32,6 +32,7 @@ type apiGen struct {
 	profile   string // "", "uniq" (collision-rich values, unique indexes first), "ttl" (dates, TTL index first), "idx" (index scenarios, api_gen_idx.go)
 	idx       *idxScen
 	step      int
+	bigTTL    int32 // profile ttl: the large expireAfterSeconds of this history (0 = none); dates cluster around now − bigTTL
 	nowMs     int64
 	dbs       []string
 	colls     []string
@@ -45,6 +46,9 @@ func newAPIGen(r *gen.R, env *apiEnv, nowMs int64) *apiGen {
 			g.profile = "uniq"
 		case k < 28:
 			g.profile = "ttl"
+			if r.P(45) {
+				g.bigTTL = apiBigTTLs[r.N(len(apiBigTTLs))]
+			}
 		case k < 50:
 			g.profile = "idx"
 		}
@@ -90,7 +94,22 @@ func (g *apiGen) docs(db, coll string) bsonkit.List {
 	return ns.Documents.List
 }
 
+// apiBigTTLs: lifetimes whose milliseconds / nanoseconds do not fit 32 bits (2147483 s is the last
+// one whose milliseconds fit int32; 30 and 60 days; 2^29, 2^30, MaxInt32 seconds).
+var apiBigTTLs = []int32{2147483, 2147484, 2592000, 5184000, 4294968, 1 << 29, 1 << 30, 2147483647}
+
+// apiOldDates: pre-epoch dates (1969, 1900, Go's zero time): expired under every lifetime up to 56 years.
+var apiOldDates = []int64{-86400e3, -1, -2208988800000, -62135596800000}
+
 func (g *apiGen) date() interface{} {
+	if g.bigTTL > 0 && g.r.P(55) {
+		// around now − bigTTL: ± 30 min, ± 2 h, ± 1 day
+		off := []int64{-86400e3, -7200e3, -1800e3, 1800e3, 7200e3, 86400e3}[g.r.N(6)]
+		return primitive.DateTime(g.nowMs - int64(g.bigTTL)*1000 + off)
+	}
+	if g.profile == "ttl" && g.r.P(8) {
+		return primitive.DateTime(apiOldDates[g.r.N(len(apiOldDates))])
+	}
 	return primitive.DateTime(g.nowMs + apiDateOffsets[g.r.N(len(apiDateOffsets))])
 }
 
@@ -121,8 +140,11 @@ func (g *apiGen) value() interface{} {
 		switch k := r.N(100); {
 		case k < 45:
 			return g.date()
-		case k < 60:
+		case k < 56:
 			return bson.A{r.SmallNumber(), g.date(), g.date()}
+		case k < 60:
+			// only pre-epoch dates: must expire
+			return bson.A{primitive.DateTime(apiOldDates[r.N(len(apiOldDates))]), primitive.DateTime(apiOldDates[r.N(len(apiOldDates))])}
 		case k < 65:
 			return bson.A{bson.D{{Key: "b", Value: g.date()}}, bson.D{{Key: "b", Value: int32(1)}}}
 		case k < 70:
@@ -329,6 +351,72 @@ func (g *apiGen) update(db, coll string) bson.D {
 			return bson.D{{Key: "$set", Value: bson.D{{Key: k, Value: g.value()}}}}
 		}
 		return u
+	}
+}
+
+// arrayResize (C08, updateDescription): with some probability the update becomes a $push with $each
+// and a $slice that trims only pushed values (len(old) ≤ slice < len(old)+len(each)), with or without
+// $position, a negative $slice, a $pop or a $pull on an EXISTING array field of a stored document,
+// and the filter selects that document.
+func (g *apiGen) arrayResize(c *apiCall, db, coll string) {
+	r := g.r
+	docs := g.docs(db, coll)
+	type cand struct {
+		d   bsonkit.Doc
+		f   string
+		arr bson.A
+	}
+	var cands []cand
+	for _, d := range docs {
+		for _, e := range *d {
+			if a, ok := e.Value.(bson.A); ok && e.Key != "_id" {
+				cands = append(cands, cand{d, e.Key, a})
+			}
+		}
+	}
+	if len(cands) == 0 || !r.P(22) {
+		return
+	}
+	x := cands[r.N(len(cands))]
+	n := len(x.arr)
+	each := bson.A{}
+	for i := 1 + r.N(3); i > 0; i-- {
+		each = append(each, g.value())
+	}
+	c.Q = bson.D{{Key: "_id", Value: idxCopy(bsonkit.Get(x.d, "_id"))}}
+	if r.P(25) {
+		c.Q = bson.D{{Key: x.f, Value: bson.D{{Key: "$exists", Value: true}}}}
+	}
+	c.Filters, c.HasFilters, c.Upsert = nil, false, false
+	push := func(mods ...bson.E) bson.D {
+		return bson.D{{Key: "$push", Value: bson.D{{Key: x.f, Value: append(bson.D{{Key: "$each", Value: each}}, mods...)}}}}
+	}
+	switch k := r.N(100); {
+	case k < 30:
+		// trims pushed values only
+		c.U = push(bson.E{Key: "$slice", Value: int32(n + r.N(len(each)))})
+	case k < 50:
+		c.U = push(bson.E{Key: "$position", Value: int32(r.N(n + 1))}, bson.E{Key: "$slice", Value: int32(n + r.N(len(each)))})
+	case k < 58:
+		c.U = push(bson.E{Key: "$slice", Value: int32(r.N(n + len(each) + 2))})
+	case k < 70:
+		c.U = push(bson.E{Key: "$slice", Value: int32(-(1 + r.N(n+len(each)+1)))})
+	case k < 76:
+		c.U = push(bson.E{Key: "$position", Value: int32(-r.N(n + 1))}, bson.E{Key: "$slice", Value: int32(-(1 + r.N(n+len(each))))})
+	case k < 86:
+		c.U = bson.D{{Key: "$pop", Value: bson.D{{Key: x.f, Value: int32(1 - 2*r.N(2))}}}}
+	default:
+		if n > 0 {
+			c.U = bson.D{{Key: "$pull", Value: bson.D{{Key: x.f, Value: idxCopy(x.arr[r.N(n)])}}}}
+			if _, isDoc := x.arr[0].(bson.D); isDoc && r.P(50) {
+				c.U = bson.D{{Key: "$pull", Value: bson.D{{Key: x.f, Value: bson.D{}}}}}
+			}
+		} else {
+			c.U = push(bson.E{Key: "$slice", Value: int32(1)})
+		}
+	}
+	if r.P(15) {
+		c.U = append(c.U, bson.E{Key: "$set", Value: bson.D{{Key: "zz", Value: int32(r.N(3))}}})
 	}
 }
 
@@ -549,7 +637,7 @@ func (g *apiGen) createIndex(c *apiCall) {
 	}
 	if (len(c.Keys) == 1 && r.P(30)) || (g.malformed && r.P(20)) {
 		c.HasTTL = true
-		c.TTL = []int32{0, 1, 3600}[r.N(3)]
+		c.TTL = []int32{0, 1, 3600, 2592000, 2147483647}[r.N(5)]
 	}
 	if r.P(30) {
 		c.HasName = true
@@ -664,6 +752,9 @@ func (g *apiGen) next0() *apiCall {
 		g.createIndex(c)
 		c.Keys = bson.D{{Key: apiIdxFields[r.N(len(apiIdxFields))], Value: int32(1 - 2*r.N(2))}}
 		c.HasTTL, c.TTL = true, []int32{0, 1, 3600}[r.N(3)]
+		if g.bigTTL > 0 && r.P(65) {
+			c.TTL = g.bigTTL
+		}
 		if g.step > 1 && r.P(45) {
 			c.HasTTL = false // a plain index next to the TTL ones: its field must not expire anything
 		}
@@ -775,10 +866,12 @@ func (g *apiGen) next0() *apiCall {
 		c.M = "updateOne"
 		c.Q, c.U, c.Upsert = g.filter(db, coll), g.update(db, coll), r.P(30)
 		c.Filters, c.HasFilters = g.arrayFilters()
+		g.arrayResize(c, db, coll)
 	case k < 620:
 		c.M = "updateMany"
 		c.Q, c.U, c.Upsert = g.filter(db, coll), g.update(db, coll), r.P(20)
 		c.Filters, c.HasFilters = g.arrayFilters()
+		g.arrayResize(c, db, coll)
 	case k < 660:
 		c.M = "replaceOne"
 		c.Q, c.Repl, c.Upsert = g.filter(db, coll), g.replacement(db, coll), r.P(35)
@@ -812,6 +905,7 @@ func (g *apiGen) next0() *apiCall {
 		c.Sort, c.HasSort = g.sortSpecFor(db, coll)
 		c.Proj, c.HasProj = g.projection(db, coll)
 		c.Filters, c.HasFilters = g.arrayFilters()
+		g.arrayResize(c, db, coll)
 		if r.P(8) {
 			// a projection that fails only on the post-image (the update creates the array)
 			f := gen.Keys[r.N(len(gen.Keys))] + "z"
@@ -863,7 +957,13 @@ func (g *apiGen) next0() *apiCall {
 			if sec := g.secondaryIndexNames(db, coll); len(sec) > 0 && r.P(85) {
 				names = sec
 			}
-			c.Keys = *ns.Indexes[names[r.N(len(names))]].Config().Key
+			if len(names) > 0 {
+				c.Keys = *ns.Indexes[names[r.N(len(names))]].Config().Key
+			}
+		}
+		if r.P(12) {
+			// key specifications of the _id index in other numeric types / directions: never drop it
+			c.Keys = bson.D{{Key: "_id", Value: []interface{}{int32(1), float64(1), int64(1), int32(-1), float64(-1)}[r.N(5)]}}
 		}
 	// ---- drops (5 %)
 	case k < 925:
